@@ -156,12 +156,14 @@ def eager_action_rules(ctx: Ctx, rule: str) -> None:
     n = 0
     for action in EAGER:
         f = ctx.func(f"{C.MSGDEP}.{action}")
-        g = ctx.cfg(f)
+        g = ctx.icfg(f, exclude=EAGER + ("__execute_callbacks",))
         aw = await_map(g)
 
         def symbol(node: Node, f=f):
+            if node.meta.get("inlined"):
+                return None  # the helper's own events are what counts
             if node.kind == "call" and isinstance(node.ast, ast.Call):
-                for cal in ctx.res.callees(f, node.ast):
+                for cal in ctx.res.callees(node.func, node.ast):
                     if cal.cls is not None and cal.cls.qualname == C.MESSAGE and cal.name in EAGER:
                         return ("super", cal.name, "awaited" if node.id in aw else "NOT-awaited")
                     if cal.name == "__execute_callbacks":
@@ -193,7 +195,7 @@ def lazy_callback_rules(ctx: Ctx, rule: str) -> None:
     slot_targets = set()
     for name in ("set_result", "set_exception"):
         f = ctx.func(f"{C.MSGDEP}.{name}")
-        g = ctx.cfg(f)
+        g = ctx.icfg(f)
         stores = [s for s in g.nodes if s.kind == "store" and (s.target or "").startswith("self.") and "lazy" in (s.target or "")]
         if not ctx.check(len(stores) == 1, rule, f, f"lazy slot store in {name}",
                          "one store to the lazy result slot", f"MessageDependency.{name} must overwrite the single lazy result slot exactly once "
@@ -202,12 +204,20 @@ def lazy_callback_rules(ctx: Ctx, rule: str) -> None:
         st = stores[0]
         slot_targets.add(st.target)
         v = st.meta.get("value")
+        binding = {}
+        if st.func is not f:
+            # the store lives in a private helper: read its arguments as seen from the caller
+            for c_ in ast.walk(f.node):
+                if isinstance(c_, ast.Call) and any(cal is st.func for cal in ctx.res.callees(f, c_, record=False)):
+                    binding = C.bind_call(st.func, c_)
         ok = False
         why = "value is not functools.partial(self._callbacks.insert, len(self._callbacks), <store coroutine>)"
         if isinstance(v, ast.Call) and (dotted(v.func) or "").split(".")[-1] == "partial" and len(v.args) == 3:
             a0, a1, a2 = v.args
-            c0 = C.utext(f, a0) == "self._callbacks.insert"
-            a1 = C.inline_locals(f, a1)  # a temporary evaluated in set_result/set_exception is still "at call time"
+            c0 = C.utext(st.func, a0) == "self._callbacks.insert"
+            a1 = C.inline_locals(st.func, a1)  # a temporary evaluated in set_result/set_exception (or its helper) is still "at call time"
+            if isinstance(a2, ast.Name) and a2.id in binding:
+                a2 = binding[a2.id]
             c1 = isinstance(a1, ast.Call) and dotted(a1.func) == "len" and len(a1.args) == 1 and dotted(a1.args[0]) == "self._callbacks"
             inner = f.nested.get(a2.id) if isinstance(a2, ast.Name) else None
             c2 = inner is not None and inner.is_async and any(
